@@ -32,7 +32,7 @@ CLAIMED = {
           'set(v, range) - the slice fast path equals the per-position loop for every range; invert(iterable) frame; *= n is n copies; byteswap(fmt, start, end, repeat) equals its pattern/group specification for every size list, '
           'window and repeat flag, returns the number of patterns, leaves the rest of the window, the outside and the length unchanged, and the group operation is proved to be "the same bytes in the opposite order" (an involution). '
           'Slice/item assignment with ints, replace and &= |= ^= are modelled, tied per step along random programs and oracle-checked. Correspondence runs random programs of 1-12 mutators plus single steps at exact boundaries, state compared after every step.'),
-    note='Not yet proved against the list spec: item/slice assignment with integer values and extended steps, replace (C07), in-place & | ^ (C16 covers the operators). Trusted: Coq kernel; bitarray slice assignment/deletion modelled in Prims (ba_setslice/ba_delslice; exercised by the same cases); hand model tied by per-step differential correspondence; the str reference model (tools/props/refmodel.py) is the oracle.',
+    note='Unit-step slice assignment (bits and integers) and deletion are proved for any start/stop (C03_slice_assignment_*); not yet proved against the list spec: extended-step slice assignment/deletion, in-place & | ^ (C16 covers the operators); replace is C07_replace. Trusted: Coq kernel; bitarray slice assignment/deletion modelled in Prims (ba_setslice/ba_delslice; exercised by the same cases); hand model tied by per-step differential correspondence; the str reference model (tools/props/refmodel.py) is the oracle.',
     technique='Coq proof (refinement to list spec, loop invariants, induction over programs) + vm_compute correspondence', design='§5 C03'),
  'C07': dict(
     text=('Coq model of BitStore.find/rfind/findall_msb0 (byte fast path and general path), Bits.find/rfind/findall/__contains__/cut/split/startswith/endswith/count and BitArray._replace. '
